@@ -111,7 +111,21 @@ pub(crate) mod verif_kani_io {
         FeoxError::IndeterminateWrite(io::Error::from(io::ErrorKind::Other))
     }
 
-    pub fn stub_fill_markers(_retired: &mut [u8], _sector: u64, _remaining: usize) {}
+    // marker bytes are proved in the marker unit; here the ARGUMENTS of every call are recorded
+    pub static mut FM_N: usize = 0;
+    pub static mut FM_SECTOR: [u64; 4] = [0; 4];
+    pub static mut FM_REMAINING: [usize; 4] = [0; 4];
+    pub static mut FM_LEN: [usize; 4] = [0; 4];
+
+    pub fn stub_fill_markers(retired: &mut [u8], sector: u64, remaining: usize) {
+        unsafe {
+            assert!(FM_N < 4);
+            FM_SECTOR[FM_N] = sector;
+            FM_REMAINING[FM_N] = remaining;
+            FM_LEN[FM_N] = retired.len();
+            FM_N += 1;
+        }
+    }
 
     pub fn mk_io(generation: u64, slot: usize, poisoned: bool) -> DiskIO {
         DiskIO {
@@ -328,6 +342,7 @@ pub(crate) mod verif_kani_io {
         let fail_at: usize = kani::any();
         kani::assume(fail_at <= 4);
         reset(fail_at);
+        unsafe { FM_N = 0 };
         let s: u64 = kani::any();
         let cnt: usize = kani::any();
         kani::assume(s >= 16 && s < (1u64 << 28));
@@ -343,10 +358,14 @@ pub(crate) mod verif_kani_io {
                 while i < writes {
                     assert!(kind(i) == K_WRITE && sector(i) == next, "consecutive, in order, no gap, no overlap");
                     assert!(len(i) % FEOX_BLOCK_SIZE == 0 && len(i) > 0 && len(i) <= RETIREMENT_WRITE_BLOCKS * FEOX_BLOCK_SIZE);
+                    // the markers of this chunk were filled for (its first sector, blocks still to go) over exactly the chunk
+                    assert!(unsafe { FM_SECTOR[i] } == next && unsafe { FM_LEN[i] } == len(i), "markers are bound to the chunk's own sectors");
+                    assert!(unsafe { FM_REMAINING[i] } as u64 == s + cnt as u64 - next, "remaining count = blocks from this chunk to the end of the extent");
                     next += (len(i) / FEOX_BLOCK_SIZE) as u64;
                     i += 1;
                 }
                 assert!(next == s + cnt as u64, "exactly the extent is covered");
+                assert!(unsafe { FM_N } == writes, "one marker fill per chunk write");
             }
             Err(_) => {
                 assert!(cnt == 0 || fail_at < n(), "Err only for an empty extent or a failed I/O call");
